@@ -764,14 +764,14 @@ Proof.
   - repeat split; reflexivity.
 Qed.
 
-(** ** C12-F4: the guard is needed *)
+(** ** C12-F4 (repaired by ed62adc): the pinned behaviour, and that the guard was needed *)
 Definition f4_cfg := {| c_verbose := false; ov_authn := 0; ov_authz := 0; ov_comm := 0; ov_precond := 418;
                         ov_norule := 0; ov_internal := 0 |}.
 Definition free_view := {| nv_free := true; nv_allowed := []; nv_other := [] |}.
 Definition f4_sc := XFail [] (Chain [Sentinel KArgument] false).
 Definition unrepaired := {| fx1 := false; fx4 := false |}.
 
-Theorem F4_refuted :
+Theorem F4_pinned_refuted :
   xguard_F4 unrepaired true f4_cfg (d_classes (demand_of f4_sc)) = true /\
   xguard_F1 unrepaired f4_sc = false /\ xguard_F2 (loaded unrepaired true f4_cfg) f4_sc = false /\
   oracle_ok free_view any_oracle = true /\
@@ -804,3 +804,29 @@ Example nonvacuous_entry :
   entry_http unrepaired true true c any_oracle sc =
     HFinal 307 {| h_location := Some "http://idp/login"%string; h_www := None; h_ctype := None |} false.
 Proof. vm_compute. repeat split; reflexivity. Qed.
+
+(** the tree as it is: C12-F4 repaired (ed62adc), C12-F1 open *)
+Definition as_is := {| fx1 := false; fx4 := true |}.
+
+Lemma xguard_F4_repaired fx file c ks : fx4 fx = true -> xguard_F4 fx file c ks = false.
+Proof. unfold xguard_F4. intros ->. simpl. rewrite andb_false_r. reflexivity. Qed.
+
+Lemma loaded_repaired fx file c : fx4 fx = true -> loaded fx file c = c.
+Proof. unfold loaded. intros ->. rewrite andb_false_r. reflexivity. Qed.
+
+Theorem entry_points_meet_spec_as_is file c o nv sc :
+  oracle_ok nv o = true -> xguard_F1 as_is sc = false -> xguard_F2 c sc = false ->
+  (forall proxy, match sc with XProxy _ => proxy = true | _ => True end ->
+     seen_ok c nv (hyp_never_success c sc) (demand_of sc) (seen_of_hfinal (entry_http as_is proxy file c o sc)) = true) /\
+  match sc with
+  | XProxy _ => True
+  | _ => seen_ok c nv (hyp_never_success c sc) (demand_of sc) (seen_of_gfinal (entry_grpc as_is file c o sc)) = true /\
+         (forall proxy, same_reply (seen_of_hfinal (entry_http as_is proxy file c o sc))
+                                   (seen_of_gfinal (entry_grpc as_is file c o sc)) = true) /\
+         entry_http as_is true file c o sc = entry_http as_is false file c o sc
+  end.
+Proof.
+  intros OK G1 G2. apply entry_points_meet_spec; try assumption.
+  - rewrite loaded_repaired; [exact G2 | reflexivity].
+  - apply xguard_F4_repaired. reflexivity.
+Qed.
